@@ -177,6 +177,10 @@ func propC16(c *Ctx, r *Report) {
 			return "dead"
 		})
 	ruleNoCarriedReads(c, newSharedAnalysis(c), r, "C16/no-carried-state", reachOf(c, "node.Pegnetd.SyncBank", "node.Pegnetd.recordPegnetRequests", "node.Pegnetd.ApplyTransactionBatchesInHolding"), carriedAllowedAverages, "the PEG bank")
+	ruleRejectedNotCollected(c, r, e, "C16/rejected-not-collected")
+	ruleRefundFormula(c, r, "C16/refund-formula")
+	r.rule("C16/loopvar-alias", 1, "a recorded PEG request does not alias the loop variable it was read from")
+	ruleLoopVarAlias(c, r, "C16/loopvar-alias", reachOf(c, "node.Pegnetd.recordPegnetRequests", "node.Pegnetd.ApplyTransactionBatchesInHolding"))
 	sbk := c.fn("node.Pegnetd.SyncBank")
 	evalEra("pn_bank row inserted iff V4 <= h < V20, with 5,000 PEG for height h", sbk,
 		func(h uint32) *Scenario { return &Scenario{Params: map[string]AVal{"type:uint32": hconst(h)}, MaxDepth: 0} },
@@ -437,4 +441,73 @@ func settleOnce(c *Ctx, r *Report, rule string, hold *ssa.Function, ci ssa.CallI
 			}
 		}
 		r.check(bad == "", rule, "per-height settlement resets the request list", c.ipos(ci), "the list variable is re-initialised on the path from the settlement to the loop latch", bad)
+}
+
+// ruleRejectedNotCollected: a held batch that applyTransactionBatch rejected (any reject sentinel) is not handed to
+// the PEG settlement - nothing was debited for it, so a payout or refund would be created from nothing.
+func ruleRejectedNotCollected(c *Ctx, r *Report, e *eraCtx, rule string) {
+	r.rule(rule, 1, "a rejected batch is not collected for the PEG settlement")
+	hold := c.fn("node.Pegnetd.ApplyTransactionBatchesInHolding")
+	limitAct, v20 := e.a.get("PegnetConversionLimitActivation"), e.a.get("V20HeightActivation")
+	acc := newTableAcc()
+	var bad []string
+	n := 0
+	for _, sent := range []string{"InsufficientBalanceErr", "ZeroRatesError", "PFCTOneWayError"} {
+		g := c.global("pegnet", sent)
+		if g == nil {
+			continue
+		}
+		for _, h := range e.reps {
+			if h < limitAct || h >= v20 {
+				continue
+			}
+			n++
+			sc := &Scenario{Params: map[string]AVal{"type:uint32": hconst(h)},
+				Calls: map[string]AVal{"HasPEGRequest": cBool(true), "isDone": cBool(false), "applyTransactionBatch": {K: ASentinel, G: g}, "IsReplayTransaction": {K: ATuple, Tup: []AVal{cBool(false), nilVal}},
+					"SelectBankEntry": {K: ATuple, Tup: []AVal{top, nilVal}}, "SetTransactionHistoryExecuted": nilVal, "Validate": nilVal},
+				MaxDepth: 1, NoInline: map[string]bool{"recordPegnetRequests": true, "GetPegNetRateAverages": true, "SelectMostRecentRatesBeforeHeight": true, "SelectTransactionBatchesInHoldingAtHeight": true}}
+			t, _ := acc.run(c, r, hold, sc)
+			for _, lc := range t.Calls {
+				if lc.Callee == "builtin.append" && lc.Depth == 0 && len(bad) < 4 {
+					bad = append(bad, fmt.Sprintf("h=%d, %s: the rejected batch is still appended to the list handed to recordPegnetRequests (%s)", h, sent, c.ipos(lc.Instr)))
+				}
+			}
+		}
+	}
+	r.check(len(bad) == 0 && n > 0, rule, "ApplyTransactionBatchesInHolding, batch rejected by applyTransactionBatch", c.pos(hold.Pos()), fmt.Sprintf("%d (sentinel, height class) cells: not collected", n), strings.Join(bad, "; "))
+}
+
+// ruleRefundFormula: conversions.Refund has one outcome - the unfilled part of the request converted back into the
+// input asset: every return is the result of a Convert call whose amount derives from (Convert(input) - yield); no
+// path returns a constant.
+func ruleRefundFormula(c *Ctx, r *Report, rule string) {
+	r.rule(rule, 1, "Refund returns Convert(maxYield - yield) back into the input asset on every path")
+	f := c.fn("conversions.Refund")
+	var bad []string
+	nret := 0
+	allInstrs(f, func(ins ssa.Instruction) {
+		ret, ok := ins.(*ssa.Return)
+		if !ok || len(ret.Results) != 1 {
+			return
+		}
+		nret++
+		v := resolveSpill(ret.Results[0])
+		okk := false
+		if ex, ok := v.(*ssa.Extract); ok && ex.Index == 0 {
+			if call, ok := ex.Tuple.(*ssa.Call); ok && shortCallee(call.Common()) == "Convert" {
+				// the amount converted back is a difference involving the yield parameter and an earlier Convert
+				amt := call.Call.Args[1]
+				hasSub := sliceHas(amt, func(x ssa.Value) bool { b, ok := x.(*ssa.BinOp); return ok && b.Op == token.SUB })
+				hasFirst := sliceHas(amt, func(x ssa.Value) bool {
+					c2, ok := x.(*ssa.Call)
+					return ok && c2 != call && shortCallee(c2.Common()) == "Convert"
+				})
+				okk = hasSub && hasFirst
+			}
+		}
+		if !okk {
+			bad = append(bad, "the return at "+c.ipos(ret)+" is not the converted-back remainder (a constant or another value): the input of a request whose share of the bank is that value is destroyed or over-refunded")
+		}
+	})
+	r.check(len(bad) == 0 && nret > 0, rule, "conversions.Refund", c.pos(f.Pos()), fmt.Sprintf("%d return(s)", nret), strings.Join(bad, "; "))
 }
